@@ -65,9 +65,14 @@ def scenario_for(seed, index, tier):
         fw = rng.sample(['ka', 'chat', 'pos', 'time', 'unknown'],
                         rng.choice([1, 2])) \
             if (not outgoing and rng.random() < 0.15) else []
+        # an outgoing listener may itself write a packet at once (forced,
+        # re-entrant) while the keep-alive answer it was shown is being
+        # written; that nested packet goes through the outgoing listeners
+        # like any other
+        ofw = ['ka'] if (outgoing and rng.random() < 0.12) else []
         listeners.append({'id': i, 'early': rng.random() < 0.5,
                           'outgoing': outgoing, 'types': types,
-                          'ignore': ignore, 'fw': fw})
+                          'ignore': ignore, 'fw': fw, 'ofw': ofw})
     known = set(ids['cb.play.known'])
     login = []
     if ids['cb.login.plugin_request'] is not None:
@@ -121,6 +126,7 @@ def scenario_for(seed, index, tier):
         sc['writes'] = [['q', t] for _m, t in sc['writes']]
         for l in listeners:
             l['fw'] = []
+            l['ofw'] = []
     elif rng.random() < 0.08:
         # an early incoming listener leaves the game: it calls disconnect()
         # and returns normally - the packet it was shown still goes through
@@ -135,6 +141,7 @@ def scenario_for(seed, index, tier):
         sc['writes'] = [['q', t] for _m, t in sc['writes']]
         for l in listeners:
             l['fw'] = []
+            l['ofw'] = []
     finish(sc)
     return sc
 
@@ -273,7 +280,16 @@ def reference(sc):
     exp_out = {}
     play_frames = 0
     answered = set()
+    ofw_count = {}
+    nested = []
     for key, kind in outgoing:
+        e, written, o = dispatch_out(L, kind)
+        for lid in e + o:
+            if kind in by_id[lid].get('ofw', ()):
+                n = ofw_count.get(lid, 0)
+                ofw_count[lid] = n + 1
+                nested.append((('chat', 'nfw-%d-%d' % (lid, n)), 'chat'))
+    for key, kind in outgoing + nested:
         e, written, o = dispatch_out(L, kind)
         if key == ('chat', 'late'):
             written, o = False, []
@@ -366,6 +382,7 @@ def execute(scenario, tape):
             return (n,), n
 
         fw_n = {}
+        ofw_n = {}
 
         def make(l):
             def cb_(p):
@@ -378,6 +395,11 @@ def execute(scenario, tape):
                     'spawned': getattr(conn, 'spawned', None)})
                 if kind == 'login-success' and not l['outgoing']:
                     st['in_play'] = True
+                if l['outgoing'] and kind in l.get('ofw', ()):
+                    n = ofw_n.get(l['id'], 0)
+                    ofw_n[l['id']] = n + 1
+                    conn.write_packet(sb.play.ChatPacket(
+                        message='nfw-%d-%d' % (l['id'], n)), force=True)
                 if not l['outgoing'] and kind in l.get('fw', ()):
                     n = fw_n.get(l['id'], 0)
                     fw_n[l['id']] = n + 1
@@ -703,6 +725,11 @@ def shrink_scenario(sc):
         if l['ignore']:
             c = copy.deepcopy(sc)
             c['listeners'][j]['ignore'] = []
+            finish(c)
+            yield c
+        if l.get('ofw'):
+            c = copy.deepcopy(sc)
+            c['listeners'][j]['ofw'] = []
             finish(c)
             yield c
         if l.get('fw'):
